@@ -34,6 +34,17 @@ static const char *pick_key(void)
 		return wrapkeys[vh_below((uint32_t)nwrap)];
 	return keys[vh_below(7)];
 }
+/* now and then a container is wide: more members than the first table size holds (growth, longer probe sequences),
+ * more elements than the first array capacity */
+static int wide_n(void) { return vh_below(25) == 0 ? 12 + (int)vh_below(30) : (int)vh_below(4); }
+static const char *wide_key(int i)
+{
+	static char kb[8][12];
+	static int rot;
+	char *k = kb[rot++ & 7];
+	snprintf(k, 12, "m%d", i);
+	return k;
+}
 static json_object *gen(int depth)
 {
 	uint32_t r = vh_below(depth <= 0 ? 9 : 13);
@@ -71,17 +82,17 @@ static json_object *gen(int depth)
 	case 9: case 10:
 	{
 		json_object *a = json_object_new_array();
-		int n = (int)vh_below(4);
+		int n = wide_n();
 		for (int i = 0; i < n; i++)
-			json_object_array_add(a, gen(depth - 1));
+			json_object_array_add(a, gen(n > 4 ? 0 : depth - 1));
 		return a;
 	}
 	default:
 	{
 		json_object *o = json_object_new_object();
-		int n = (int)vh_below(4);
+		int n = wide_n();
 		for (int i = 0; i < n; i++)
-			json_object_object_add(o, pick_key(), gen(depth - 1));
+			json_object_object_add(o, n > 4 ? wide_key(i) : pick_key(), gen(n > 4 ? 0 : depth - 1));
 		return o;
 	}
 	}
